@@ -2,19 +2,9 @@
     in a fixed order (map/concat reasoning over arbitrary lists), the document order of such a list is the list
     itself, every container becomes one request carrying the client's ids / the dates / the flags. *)
 From OfxV Require Import Base.Prelude Base.Digits Base.OfxgetBase Gen.OfxgetGen Model.OfxgetCfg Model.OfxgetAccts.
+From OfxV Require Export Proofs.OfxgetBaseFacts.
 From Coq Require Import Lia.
 Local Open Scope N_scope.
-
-(* ------------------------------------------------------------------ generic *)
-Lemma bind_ok {A B} (r : result A) (f : A -> result B) b :
-  bind r f = OK b -> exists a, r = OK a /\ f a = OK b.
-Proof. destruct r as [a|k]; cbn; [eauto | discriminate]. Qed.
-
-Lemma text_eqb_refl s : text_eqb s s = true.
-Proof. apply text_eqb_eq. reflexivity. Qed.
-
-Lemma text_eqb_neq a b : a <> b -> text_eqb a b = false.
-Proof. intro H. destruct (text_eqb a b) eqn:E; [apply text_eqb_eq in E; contradiction | reflexivity]. Qed.
 
 (* ------------------------------------------------------------------ what the specification talks about *)
 (** the account list an option denotes (empty when the option does not hold a list) *)
